@@ -47,7 +47,7 @@ GROUP = {
     'data-expr': 'via-expr', 'assign-expr': 'via-expr', 'send-content': 'via-expr', 'donedata-content': 'via-expr',
     'send-param': 'via-send', 'send-namelist': 'via-send', 'donedata-param': 'via-send',
     'data-inline': 'via-inline', 'send-inline': 'via-inline',
-    'send-param:payload': 'via-expr', 'send-namelist:payload': 'via-expr', 'donedata-param:payload': 'via-expr',
+    'send-param:payload': 'via-expr', 'send-namelist:payload': 'via-expr', 'donedata-param:payload': 'via-expr', 'process': 'process',
 }
 CHART_EVALS = [('data-expr', 'v'), ('data-inline', 'vi'), ('assign-expr', 'r_assign'), ('send-param', 'r_param'), ('send-namelist', 'r_nl'), ('send-content', 'r_content'),
                ('send-inline', 'r_inline'), ('donedata-param', 'r_dd_param'), ('donedata-content', 'r_dd_content')]
@@ -56,8 +56,12 @@ CHART_EVALS = [('data-expr', 'v'), ('data-inline', 'vi'), ('assign-expr', 'r_ass
 def value_chart(lua):
     """one document that sends the value of the Lua literal/expression `lua` along every chart-level route"""
     a, t = xesc(lua), xesc(lua)
-    return ('<scxml xmlns="%s" version="1.0" datamodel="lua" name="c16" initial="a">'
+    return ('<scxml xmlns="%s" version="1.0" datamodel="lua" name="c16" initial="top">'
             '<datamodel><data id="v" expr="%s"/><data id="vi">%s</data></datamodel>'
+            '<state id="top" initial="a">'
+            '<transition event="in"><assign location="r_ev" expr="_event.data"/></transition>'
+            '<transition event="in2"><assign location="r_ev2" expr="_event.data.k"/></transition>'
+            '<transition event="in3"><assign location="r_ev3" expr="_event.data.k"/></transition>'
             '<state id="a">'
             '<onentry><assign location="r_assign" expr="%s"/></onentry>'
             '<onentry><send event="e.param"><param name="p" expr="v"/></send></onentry>'
@@ -68,9 +72,6 @@ def value_chart(lua):
             '<transition event="e.nl"><assign location="r_nl" expr="_event.data.v"/></transition>'
             '<transition event="e.content"><assign location="r_content" expr="_event.data"/></transition>'
             '<transition event="e.inline"><assign location="r_inline" expr="_event.data"/></transition>'
-            '<transition event="in"><assign location="r_ev" expr="_event.data"/></transition>'
-            '<transition event="in2"><assign location="r_ev2" expr="_event.data.k"/></transition>'
-            '<transition event="in3"><assign location="r_ev3" expr="_event.data.k"/></transition>'
             '<transition event="dd" target="b"/>'
             '</state>'
             '<state id="b" initial="bf"><final id="bf"><donedata><param name="p" expr="v"/></donedata></final>'
@@ -78,6 +79,7 @@ def value_chart(lua):
             '<state id="c" initial="cf"><final id="cf"><donedata><content expr="v"/></donedata></final>'
             '<transition event="done.state.c" target="d"><assign location="r_dd_content" expr="_event.data"/></transition></state>'
             '<state id="d"/>'
+            '</state>'
             '</scxml>') % (NS, a, t, a, t)
 
 
@@ -92,19 +94,20 @@ def case_lines(cid, case):
     v = case['value']
     L = ['BEGIN %s %s' % (cid, dtree.hx(value_chart(case['lua']).encode())), 'RUN']
     labels = []
+    # chart-level routes first, so that a process dying in an API route cannot hide them
+    L += ['RECV ' + dtree.enc_event(api_event(b'dd')), 'RUN']
+    L += ['EVAL ' + dtree.hx(var.encode()) for _, var in CHART_EVALS]
+    labels += [r for r, _ in CHART_EVALS]
     api = luaval.data_expressible(v) and not case.get('expr_only')
     if api:
         d = dtree.enc(luaval.to_data(v))
-        L += ['ASSIGN %s %s' % (dtree.hx(b'va'), d), 'EVAL ' + dtree.hx(b'va'), 'INIT %s %s' % (dtree.hx(b'vb'), d), 'EVAL ' + dtree.hx(b'vb')]
-        labels += ['dm-assign', 'dm-init']
         L += ['RECV ' + dtree.enc_event(api_event(b'in', data=luaval.to_data(v))), 'RUN',
               'RECV ' + dtree.enc_event(api_event(b'in2', params=[(b'k', luaval.to_data(v))])), 'RUN',
               'RECV ' + dtree.enc_event(api_event(b'in3', namelist={b'k': luaval.to_data(v)})), 'RUN']
         L += ['EVAL ' + dtree.hx(x) for x in (b'r_ev', b'r_ev2', b'r_ev3')]
         labels += ['event-data', 'event-param', 'event-namelist']
-    L += ['RECV ' + dtree.enc_event(api_event(b'dd')), 'RUN']
-    L += ['EVAL ' + dtree.hx(var.encode()) for _, var in CHART_EVALS]
-    labels += [r for r, _ in CHART_EVALS]
+        L += ['ASSIGN %s %s' % (dtree.hx(b'va'), d), 'EVAL ' + dtree.hx(b'va'), 'INIT %s %s' % (dtree.hx(b'vb'), d), 'EVAL ' + dtree.hx(b'vb')]
+        labels += ['dm-assign', 'dm-init']
     L.append('END')
     return L, labels
 
@@ -154,48 +157,88 @@ def crash_sig(err, rc):
     return 'exit-%s' % rc, 'no sanitizer report, rc=%s: %s' % (rc, err[-300:])
 
 
+VLUA_ENV = {'ASAN_OPTIONS': common.ASAN_ENV['ASAN_OPTIONS'] + ':hard_rss_limit_mb=700'}    # a runaway allocation must not take the machine down
+
+
+def loader_trouble(rc, err):
+    """the sanitizer build is being re-linked by a concurrent check: not a verdict about the subject"""
+    return rc == 127 or 'error while loading shared libraries' in (err or '') or 'symbol lookup error' in (err or '')
+
+
+def split_blocks(out):
+    cur, done = [], []
+    for ln in out.split('\n'):
+        if ln.startswith('END '):
+            done.append(cur)
+            cur = []
+        elif ln.startswith('BEGIN '):
+            cur = []
+        elif ln:
+            cur.append(ln)
+    return done, cur
+
+
 def run_blocks(binary, blocks):
-    """blocks: list of line lists (each BEGIN..END). -> list of (answer lines | None, crashinfo | None). A dying process is restarted after the case it died in."""
+    """blocks: list of line lists (each BEGIN..END). -> list of (answer lines, crashinfo | None); for a case the process died in, the
+    answer lines are those it produced before dying (from a run of the case alone). A dying process is restarted after that case."""
+    import time
     res = [None] * len(blocks)
     i = 0
+    retries = 0
     while i < len(blocks):
         chunk = blocks[i:]
         inp = '\n'.join('\n'.join(b) for b in chunk) + '\n'
-        rc, out, err, to = common.run_proc([binary], inp=inp, timeout=120 + 0.5 * len(chunk))
-        cur, done = [], []
-        for ln in out.split('\n'):
-            if ln.startswith('END '):
-                done.append(cur)
-                cur = []
-            elif ln.startswith('BEGIN '):
-                cur = []
-            elif ln:
-                cur.append(ln)
+        rc, out, err, to = common.run_proc([binary], inp=inp, timeout=120 + 0.5 * len(chunk), env=VLUA_ENV)
+        if loader_trouble(rc, err):
+            retries += 1
+            if retries > 40:
+                raise Inconclusive('harness binary cannot be loaded (library being rebuilt?): %s' % (err or '')[-200:])
+            time.sleep(3)
+            continue
+        done, _ = split_blocks(out)
         for k, b in enumerate(done[:len(chunk)]):
             res[i + k] = (b, None)
         if not to and rc == 0 and len(done) >= len(chunk):
             break
         bad = min(i + len(done), len(blocks) - 1)
         # verdict from a run of the case alone
-        rc2, out2, err2, to2 = common.run_proc([binary], inp='\n'.join(blocks[bad]) + '\n', timeout=60)
+        for _ in range(40):
+            rc2, out2, err2, to2 = common.run_proc([binary], inp='\n'.join(blocks[bad]) + '\n', timeout=60, env=VLUA_ENV)
+            if not loader_trouble(rc2, err2):
+                break
+            time.sleep(3)
+        else:
+            raise Inconclusive('harness binary cannot be loaded (library being rebuilt?)')
+        done2, partial = split_blocks(out2)
         if to2:
             info = {'kind': 'hang', 'sig': 'case alone did not finish in 60 s', 'alone': True}
         elif rc2 != 0:
-            k, s = crash_sig(err2, rc2)
+            if 'hard rss limit exhausted' in (err2 or ''):
+                k, s = 'memory-exhausted', 'resident set grew beyond 700 MB (AddressSanitizer hard_rss_limit)'
+            else:
+                k, s = crash_sig(err2, rc2)
             info = {'kind': k, 'sig': s, 'alone': True}
         else:
-            k, s = crash_sig(err, rc) if not to else ('hang-in-batch', 'batch timed out')
+            # survives alone: symptom depends on process history (e.g. uninitialised memory); keep the batch's evidence
+            if 'hard rss limit exhausted' in (err or ''):
+                k, s = 'memory-exhausted', 'resident set grew beyond 700 MB (AddressSanitizer hard_rss_limit)'
+            else:
+                k, s = crash_sig(err, rc) if not to else ('hang-in-batch', 'batch timed out')
             info = {'kind': k + ':only-in-batch', 'sig': s, 'alone': False}
-        res[bad] = (None, info)
+            partial = split_blocks(out)[1]
+        res[bad] = (partial, info)
         i = bad + 1
     return res
 
 
 # ------------------------------------------------------------------------------------------------ judging
-def judge(case, obs):
-    """-> {route: (what, msg)} for routes whose read-back value denotes something else than case['value']"""
+def judge(case, obs, crash=None):
+    """-> {route: (what, msg)} for routes whose read-back value denotes something else than case['value']; a process that died during
+    a route's read-back (or before any) makes that route fail with what='crash-<kind>'"""
     v = case['value']
     bad = {}
+    if crash:
+        bad[crash.get('route') or 'process'] = ('crash-' + crash['kind'], crash['sig'])
     for route, o in obs.items():
         if case.get('expr_only') and GROUP[route] != 'via-expr':
             continue
@@ -234,11 +277,13 @@ def run_cases(binary, cases):
         labels.append(lab)
     out = []
     for c, lab, (block, crash) in zip(cases, labels, run_blocks(binary, blocks)):
+        obs, events, notes = parse_block(block or [], lab)
         if crash:
-            out.append((None, crash, []))
-        else:
-            obs, events, notes = parse_block(block, lab)
-            out.append((obs, None, notes))
+            # the route whose read-back was in progress when the process died
+            pending = [l for l in lab if l not in obs]
+            crash = dict(crash, route=pending[0] if pending else None)
+            notes = []
+        out.append((obs, crash, notes))
     return out
 
 
@@ -255,9 +300,7 @@ def classify(binary, failing):
     vres = run_cases(binary, variants) if variants else []
     cured_by = collections.defaultdict(dict)      # ci -> route -> smallest curing subset
     for (ci, s), vc, (obs, crash, notes) in zip(index, variants, vres):
-        if crash or obs is None:
-            continue
-        vb = judge(vc, obs)
+        vb = judge(vc, obs, crash)                # a variant that dies still cures the routes it answered before
         for route in failing[ci][1]:
             if route in obs and route not in vb and route not in cured_by[ci]:
                 cured_by[ci][route] = s           # subsets are enumerated smallest first
@@ -271,8 +314,8 @@ def classify(binary, failing):
                 continue
             for f in s:
                 grp = GROUP[route]
-                if grp != 'via-inline' and 'data-expr' in cured_by[ci] and f in cured_by[ci]['data-expr'] and pure:
-                    grp = 'lua-to-data'           # lost by evalAsData itself, which ends every route
+                if f != EXPR_FEATURE and grp != 'process' and 'data-expr' in cured_by[ci] and f in cured_by[ci]['data-expr'] and pure:
+                    grp = 'lua-to-data'           # lost by evalAsData itself (Lua -> Data), which ends every route
                 results.append(('%s:%s' % (f, grp), case, route, msg))
     return results, unexplained
 
@@ -335,7 +378,7 @@ def shrink_unexplained(binary, case, route, rounds=40):
             break
         nxt = None
         for c, (obs, crash, notes) in zip(cands, run_cases(binary, cands)):
-            if obs is not None and route in judge(c, obs):
+            if route in judge(c, obs, crash):
                 nxt = c
                 break
         if nxt is None:
@@ -404,15 +447,12 @@ def value_job(args):
     fails, failing, nt, trips, ok_trips = [], [], set(), 0, 0
     route_count = collections.Counter()
     for c, (obs, crash, notes) in zip(cases, res):
-        if crash:
-            fails.append(('crash:' + crash['kind'], dict(case_jsonable(c), crash=crash), crash['sig'], luaval.size(c['value'])))
-            continue
         if notes:
             fails.append(('harness-note:' + re.sub(r'[^\w]+', '-', notes[0])[:40], dict(case_jsonable(c), notes=notes), notes[0], luaval.size(c['value'])))
-        bad = judge(c, obs)
+        bad = judge(c, obs, crash)
         n_routes = sum(1 for r in obs if not (c.get('expr_only') and GROUP[r] != 'via-expr'))
         trips += n_routes
-        ok_trips += n_routes - len(bad)
+        ok_trips += n_routes - len([r for r in bad if r in obs])
         for r in obs:
             route_count[r] += 1
         if nontrivial_value(c['value']):
@@ -482,15 +522,14 @@ def sysvar_lines(cid, attempt, data_xml):
     return L
 
 
-def judge_sysvar(form, var, block):
-    """-> list of (key, msg)"""
+def parse_sysvar_block(block):
     evals, events, session, phase = [], [[], [], []], None, 0
     for ln in block:
         t = ln.split(' ')
         if t[0] == 'V':
-            evals.append(dtree.dec(t, 1)[0])
+            evals.append(dtree.dec(t, 1)[0][:4])
         elif t[0] in ('VT', 'VX'):
-            evals.append(('threw', ln[:120]))
+            evals.append(None)
         elif t[0] == 'S':
             session = (dtree.unhx(t[1]), dtree.unhx(t[2]))
         elif t[0] == 'E':
@@ -498,73 +537,89 @@ def judge_sysvar(form, var, block):
             if ev['name'] == b'try':
                 phase += 1
             events[min(phase, 2)].append(ev['name'])
-    if len(evals) != 2 * len(SYSVARS) or session is None:
-        return [('sysvar:harness', 'unexpected answer block: %d evals' % len(evals))]
-    ref = dict(zip(SYSVARS, evals[:len(SYSVARS)]))
-    att = dict(zip(SYSVARS, evals[len(SYSVARS):]))
-    out = []
-    # the reference itself must be sane, otherwise the comparison means nothing
-    if luaval.denote(ref['_name']) != b'machine' or luaval.denote(ref['_sessionid']) != session[0]:
-        if form != 'data-init':
-            return [('sysvar:harness', 'reference values of _name/_sessionid are not the session\'s: %s / %s' % (dtree.show(ref['_name']), dtree.show(ref['_sessionid'])))]
-    expected = dict(ref)
-    if form == 'data-init':
-        # the attempt happened at initialisation, before the reference point: compare with what the platform defines
-        expected['_name'] = dtree.S(b'machine')
-        expected['_sessionid'] = dtree.S(session[0])
-    changed = [v for v in SYSVARS if dtree.first_diff(tuple(expected[v][:4]), att[v]) is not None] if all(not (isinstance(x, tuple) and x and x[0] == 'threw') for x in list(ref.values()) + list(att.values())) else ['?eval-threw']
-    if form == 'data-init':
-        # _ioprocessors/_invokers/_event have no independent expected value here: they must at least not be the assigned value or nil
-        for v in ('_ioprocessors', '_invokers'):
-            if var == v and dtree.is_empty(att[v][:4]) or (var == v and att[v][1] == b'nil'):
-                changed.append(v)
+    return evals, events, session
+
+
+def without_session(n, sid):
+    """Data tree with the session id replaced by a placeholder (so that the variables of two sessions can be compared)"""
+    return (n[0], n[1].replace(sid, b'<sessionid>') if sid else n[1], [without_session(c, sid) for c in n[2]], {k: without_session(c, sid) for k, c in n[3].items()})
+
+
+def judge_sysvar(form, var, block, control):
+    """control: the same document without any attempt, run in its own session. -> list of (key, msg).
+    Expected values: for attempts inside the second 'try' transition, what the variables held after the identical first 'try' event
+    (same session); for <data id=..> (executed at initialisation, before anything can be sampled) the values of the control session."""
+    evals, events, session = parse_sysvar_block(block)
+    cevals, cevents, csession = parse_sysvar_block(control)
+    n = len(SYSVARS)
+    if len(evals) != 2 * n or session is None or len(cevals) != 2 * n or csession is None or None in cevals:
+        return [('sysvar:harness', 'unexpected answer block: %d/%d evals' % (len(evals), len(cevals)))]
+    cref = dict(zip(SYSVARS, [without_session(x, csession[0]) for x in cevals[n:]]))
+    if luaval.denote(cref['_name']) != b'machine' or luaval.denote(cref['_sessionid']) != b'<sessionid>' or not cref['_ioprocessors'][3] or b'error.execution' in cevents[0] + cevents[1] + cevents[2]:
+        return [('sysvar:harness', 'control session does not show the platform values: %s' % {k: dtree.show(v, 40) for k, v in cref.items()})]
+    if None in evals:
+        return [('sysvar:%s:eval-threw' % form, 'reading a system variable back threw')]
+    ref = dict(zip(SYSVARS, [without_session(x, session[0]) for x in evals[:n]]))
+    att = dict(zip(SYSVARS, [without_session(x, session[0]) for x in evals[n:]]))
+    expected = cref if form == 'data-init' else ref
+    changed = [v for v in SYSVARS if dtree.first_diff(expected[v], att[v]) is not None]
     err_seen = b'error.execution' in (events[2] if form != 'data-init' else events[0] + events[1] + events[2])
     problems = []
-    if var in changed or (changed and changed != [var]):
+    if changed:
         problems.append('changed')
     if not err_seen:
         problems.append('no-error')
-    if problems:
-        out.append(('sysvar:%s:%s:%s' % (form, var, '+'.join(problems)),
-                    '%s of %s: %s; value before %s, after %s; events after the attempt: %s' % (form, var, ' and '.join(problems), dtree.show(expected[var], 60), dtree.show(att[var], 60),
-                                                                                             [e.decode('latin-1') for e in events[2]])))
-    return out
+    if not problems:
+        return []
+    side = [v for v in changed if v != var]
+    key = 'sysvar:%s:%s' % (form, '+'.join(problems)) + (':also-' + '-'.join(side) if side else '')
+    return [(key, '%s of %s: %s; expected %s, afterwards %s; events after the attempt: %s' % (
+        form, var, ' and '.join({'changed': 'the variable changed', 'no-error': 'no error.execution was raised'}[p] for p in problems),
+        dtree.show(expected[var], 70), dtree.show(att[var], 70), [e.decode('latin-1') for e in events[2]]))]
+
+
+CONTROL = ('<assign location="dummy" expr="2"/>', '')
 
 
 def sysvar_part(chk, binary):
     cases = sysvar_cases(chk.rng)
-    blocks = [sysvar_lines('s%d' % i, c[2], c[3]) for i, c in enumerate(cases)]
+    blocks = [sysvar_lines('ctl', *CONTROL)] + [sysvar_lines('s%d' % i, c[2], c[3]) for i, c in enumerate(cases)]
     res = run_blocks(binary, blocks)
+    if res[0][1]:
+        raise Inconclusive('control session of the system-variable part died: %s' % (res[0][1],))
+    control = res[0][0]
     fails = collections.defaultdict(list)
-    for c, (block, crash) in zip(cases, res):
+    refused = 0
+    for c, (block, crash) in zip(cases, res[1:]):
         chk.count()
         chk.nontrivial(('sysvar', c[0], c[1], c[2]))
         case = {'kind': 'sysvar', 'form': c[0], 'var': c[1], 'attempt': c[2], 'data': c[3]}
         if crash:
             fails['sysvar:crash:' + crash['kind']].append((case, crash['sig']))
             continue
-        for key, msg in judge_sysvar(c[0], c[1], block):
+        js = judge_sysvar(c[0], c[1], block, control)
+        refused += not js
+        for key, msg in js:
             fails[key].append((case, msg))
     chk.add('sysvar_attempts', len(cases))
-    chk.add('sysvar_attempts_refused_cleanly', len(cases) - sum(len(v) for v in fails.values()))
+    chk.add('sysvar_attempts_refused_cleanly', refused)
     chk.sample({'part': 'sysvar', 'form': cases[0][0], 'var': cases[0][1], 'attempt': cases[0][2]}, limit=9)
+    chk.sample({'part': 'sysvar', 'form': cases[-3][0], 'var': cases[-3][1], 'attempt': cases[-3][2]}, limit=9)
     for key, fl in sorted(fails.items()):
-        chk.report(key, dict(fl[0][0], count=len(fl)), fl[0][1], n=len(fl))
+        chk.report(key, dict(fl[0][0], count=len(fl), variables=sorted(set(f[0]['var'] for f in fl))), '%s (%d attempts, variables %s)' % (fl[0][1], len(fl), sorted(set(f[0]['var'] for f in fl))), n=len(fl))
 
 
 # ------------------------------------------------------------------------------------------------ single cases
 def run_case(binary, case):
     if case['kind'] == 'sysvar':
-        (block, crash), = run_blocks(binary, [sysvar_lines('r', case['attempt'], case.get('data', ''))])
-        if crash:
-            return [('sysvar:crash:' + crash['kind'], crash['sig'])]
-        return judge_sysvar(case['form'], case['var'], block)
+        (control, ccrash), (block, crash) = run_blocks(binary, [sysvar_lines('ctl', *CONTROL), sysvar_lines('r', case['attempt'], case.get('data', ''))])
+        if crash or ccrash:
+            return [('sysvar:crash:' + (crash or ccrash)['kind'], (crash or ccrash)['sig'])]
+        return judge_sysvar(case['form'], case['var'], block, control)
     c = case_from_jsonable(case)
     (obs, crash, notes), = run_cases(binary, [c])
-    if crash:
-        return [('crash:' + crash['kind'], crash['sig'])]
-    bad = judge(c, obs)
-    if case.get('route'):
+    bad = judge(c, obs, crash)
+    if case.get('route') and not crash:
         bad = {r: x for r, x in bad.items() if r == case['route']}
     if not bad:
         return []
@@ -577,7 +632,10 @@ def check_witnesses(chk, binary):
         p = os.path.join(common.VERIF, wit) if wit else None
         if not p or not os.path.exists(p):
             continue
-        got = run_case(binary, json.load(open(p))['case'])
+        for attempt in range(3):      # symptoms that depend on uninitialised memory (empty-map-key) do not show in every run
+            got = run_case(binary, json.load(open(p))['case'])
+            if key in [k for k, _ in got]:
+                break
         chk.count()
         if key in [k for k, _ in got]:
             chk.report(key, {}, '', n=1)
@@ -613,9 +671,9 @@ def main(tier, replay):
             print('case passes')
         sys.exit(1 if got else 0)
     if tier == 'quick':
-        n_val, chunk, maxarr = 1500, 125, 14
+        n_val, chunk, maxarr = 3000, 250, 14
     else:
-        n_val, chunk, maxarr = 30000, 500, 40
+        n_val, chunk, maxarr = 100000, 1000, 40
     jobs = [(binary, chk.rng.getrandbits(48), min(chunk, n_val - i), maxarr) for i in range(0, n_val, chunk)]
     results = common.pmap(value_job, jobs, workers=WORKERS)
     sysvar_part(chk, binary)
